@@ -348,6 +348,8 @@ def query_overlap_of_other_tree(
     broad_tetrahedra1 = []
     broad_tetrahedra2 = []
     stack = [root2]
+    if root2 == INDEX_NONE:  # empty tree
+        stack = stack[:-1]
 
     while len(stack) != 0:
 
@@ -381,6 +383,8 @@ def query_overlap(test_aabb, root_node_index, nodes, aabbs, break_at_first_leaf=
     """Queries the overlapping aabbs by traversing the tree."""
     overlaps = []
     stack = [root_node_index]
+    if root_node_index == INDEX_NONE:  # empty tree
+        stack = stack[:-1]
 
     while len(stack) != 0:
 
